@@ -128,6 +128,13 @@ def c10():
     if before != after: R.fail("c10.original_dir_untouched", "original directory changed after restore with new_checkpoint_dir", dict(before=sorted(before), after=sorted(after)))
     if steps(nd) != [9] or r.checkpoint_frequency != 3 or r.enable_async_checkpointing is not False: R.fail("c10.overrides_effective", "overrides did not take effect for later saves", dict(steps_new=steps(nd), frequency=r.checkpoint_frequency))
     if same_state(state_of(s), st0, skip=("policy",)): R.fail("c10.overrides_keep_state", "overrides altered the restored state", dict(overrides=True))
+    # "from the directory alone": a COPY of the checkpoint directory restores the state it holds, whatever happens later in the original directory
+    dc = os.path.join(base, "c10_copy_src"); s_c = VI(Forest(S=11, p=0.2), verbose=0, gamma=0.95, epsilon=1e-12, checkpoint_dir=dc, checkpoint_frequency=1, max_checkpoints=3); s_c.solve(3); wait(s_c); at3 = state_of(s_c)
+    dcopy = os.path.join(base, "c10_copy_dst"); shutil.copytree(dc, dcopy); s_c.solve(3); wait(s_c); R.case(("copied_directory",), dict(history="solve(3); copy directory; solve(3) in the original; restore(copy)"))
+    try:
+        rc_ = VI.restore(dcopy); bad = same_state(at3, state_of(rc_), skip=("policy",))
+        if bad: R.fail("c10.restore_reads_the_given_directory", f"restore(copy) does not return the state held by the copy: {bad}", dict(history="solve(3); copy; solve(3); restore(copy)"), dict(iteration=int(rc_.iteration)), dict(iteration=3))
+    except Exception as ex: R.fail("c10.restore_reads_the_given_directory", f"restore(copy) raised {type(ex).__name__}", dict(history="solve(3); copy; solve(3); restore(copy)"), str(ex)[:200])
     # an override of 0 (= checkpointing disabled for the continued run) is an override like any other
     listing = sorted(os.listdir(d)); r0 = VI.restore(d, checkpoint_frequency=0); R.case(("override_zero",), dict(checkpoint_frequency=0)); r0.solve(3); wait(r0)
     if r0.checkpoint_frequency != 0 or sorted(os.listdir(d)) != listing: R.fail("c10.overrides_effective", "restore(checkpoint_frequency=0) is ignored: the restored solver keeps the saved frequency and writes into the original directory", dict(checkpoint_frequency_override=0, saved_frequency=2), dict(frequency=r0.checkpoint_frequency, listing=sorted(os.listdir(d))), dict(frequency=0, listing=listing))
